@@ -3,7 +3,9 @@ CONSTANTS
   Threads = {1, 2, 3, 4, 5, 6, 7, 8}
   MaxOps = 400
   Kinds = {"w", "c", "b"}
-  Manual = FALSE
+  ManualKs = FALSE
+  ManualDb = FALSE
+  PersistShortcut = FALSE
   MaxFaults = 400
   EnPersistCall = TRUE
   FixPoisonAppend = TRUE
